@@ -1,23 +1,29 @@
 //! Rust side of the correspondence checks: runs the real anydb code on generated or
 //! replayed inputs and prints observations in the line protocol of DESIGN.md appendix C.
-mod rng;
+//! Engines live in src/eng_<name>.rs (each exposes `pub fn run(args: &[String]) -> i32`).
+#![allow(dead_code)]
 mod consts;
-mod codec;
+pub mod rng;
+pub mod util;
+
+include!(concat!(env!("OUT_DIR"), "/engines.rs"));
 
 fn main() {
     let args: Vec<String> = std::env::args().collect();
     if args.len() < 2 {
-        eprintln!("usage: harness <engine> [args]");
+        eprintln!("usage: harness <engine> [--seed n] [--cases n] [--replay file]");
         std::process::exit(2);
     }
     let rest = &args[2..];
     let code = match args[1].as_str() {
         "consts" => consts::run(),
-        "codec" => codec::run(rest),
-        other => {
-            eprintln!("unknown engine {other}");
-            2
-        }
+        other => match dispatch(other, rest) {
+            Some(c) => c,
+            None => {
+                eprintln!("unknown engine {other}");
+                2
+            }
+        },
     };
     std::process::exit(code);
 }
